@@ -173,6 +173,52 @@ def search(ctx, nmax, ratios, tables):
                         return
                     break
     fdm.FD_RULES.clear()
+    subclass_search(ctx)
+
+
+def subclass_search(ctx):
+    """The same exactness statement for the rule classes of Jacobian, Hessdiag and Hessian (two variables): with the reported method_order,
+    the rule applied to the class's own difference quotient of every monomial x0^a x1^b of degree < n + method_order is the exact derivative."""
+    from numdifftools import finite_difference as fdm
+    x0 = np.array([0.3, -0.2])
+    for cname, n in (('LogJacobianRule', 1), ('LogHessdiagRule', 2), ('LogHessianRule', 2)):
+        cls = getattr(fdm, cname)
+        for method in ('forward', 'backward', 'central'):
+            for order in ((None,) if cname == 'LogHessianRule' else (1, 2, 3, 4)):
+                fdm.FD_RULES.clear()
+                with warnings.catch_warnings():
+                    warnings.simplefilter('ignore')
+                    r = cls(n=n, method=method, order=order) if order is not None else cls(n=n, method=method)
+                    w = np.atleast_1d(r.rule(2.0))
+                mo = int(r.method_order)
+                hs = [0.5 * 2.0 ** -i for i in range(len(w))]
+                for a in range(0, n + mo):
+                    for b in range(0, n + mo - a):
+                        def f(x, a=a, b=b):
+                            return x[0] ** a * x[1] ** b
+                        with np.errstate(all='ignore'):
+                            dq = [np.asarray(r.diff(f, f(x0), x0, hi * np.ones(2)), dtype=float) for hi in hs]
+                        # (the Hessian stencils already divide by h_i h_j and LogHessianRule.apply passes them through)
+                        est = dq[0] if cname == 'LogHessianRule' else sum(wi * d for wi, d in zip(w, dq)) / hs[0] ** n
+                        da = lambda k, p, t: (math.factorial(p) // math.factorial(p - k) if p >= k else 0) * (t ** (p - k) if p >= k else 0.0)   # noqa  d^k/dt^k t^p
+                        if cname == 'LogJacobianRule':
+                            want = np.array([da(1, a, x0[0]) * x0[1] ** b, x0[0] ** a * da(1, b, x0[1])])
+                        elif cname == 'LogHessdiagRule':
+                            want = np.array([da(2, a, x0[0]) * x0[1] ** b, x0[0] ** a * da(2, b, x0[1])])
+                        else:
+                            mixed = da(1, a, x0[0]) * da(1, b, x0[1])
+                            want = np.array([[da(2, a, x0[0]) * x0[1] ** b, mixed], [mixed, x0[0] ** a * da(2, b, x0[1])]])
+                        ctx.count(1)
+                        est = np.asarray(est).reshape(want.shape)
+                        scale = float(sum(np.max(np.abs(wi * d)) for wi, d in zip(w, dq)) / hs[0] ** n) + float(np.max(np.abs(want))) + 1e-300
+                        if not np.all(np.abs(est - want) <= 1e-9 * scale + 1e-12 / hs[-1] ** n):
+                            ctx.violation('inexact:%s:%s' % (cname, method),
+                                          '%s(n=%d, method=%r, order=%r): method_order = %d, but the rule applied to the difference quotient of x0**%d * x1**%d (degree %d < n + method_order = %d) at (0.3, -0.2) gives %r, exact %r' % (
+                                              cname, n, method, order, mo, a, b, a + b, n + mo, est.tolist(), want.tolist()),
+                                          {'class': cname, 'method': method, 'order': order, 'method_order': mo, 'monomial': [a, b], 'estimate': est.tolist(), 'exact': want.tolist()})
+                            fdm.FD_RULES.clear()
+                            return
+    fdm.FD_RULES.clear()
 
 
 def run(ctx):
@@ -189,6 +235,8 @@ def run(ctx):
     ctx.sample({'example certificate': 'LogRule(n=1, method=central, order=4).rule(2.0) vs row 0 of the exact inverse of [[1/1!, 1/3!],[1/2, 1/(8*3!)]]'})
     if ctx.broken or ctx.thorough:
         search(ctx, 10 if (ctx.broken or ctx.thorough) else 6, [2.0, 1.6, 4.0] if not ctx.thorough else ratios_q[:8], tables)
+    else:
+        subclass_search(ctx)        # cheap, always on: the rule classes of Jacobian / Hessdiag / Hessian
     ctx.assumptions += ['the rule row is an oracle (LAPACK pinv): certified each run against the EXACT inverse of the model\'s moment matrix with the exact condition number; configurations with kappa > 1e13 are numerically singular (excluded by the property) and only counted',
                         'layers (A), (B), (C) are each proved; their composition (instantiating the abstract sigma/off/st/T of (C) with the table values of (B) and the signatures of (A)) is by inspection of matching statements, not yet a single Coq term',
                         'the rounding clause ("up to conditioning-scaled rounding") is the certificate bound 8*u*kappa, not a floating-point proof']
